@@ -41,6 +41,7 @@ class Interpreter:
 
     def interpret(self, script, filename, environment=None):
         savedParent = None
+        reparented = None
         if environment is None:
             env = self.environment
         else:
@@ -50,6 +51,7 @@ class Interpreter:
             if environment_:
                 savedParent = environment_.parent
                 environment_.withParent(self.environment)
+                reparented = environment_
             env = environment
         try:
             result = parse_script(script, filename).evaluate(env)
@@ -69,9 +71,5 @@ class Interpreter:
                 )
             return result
         finally:
-            if savedParent:
-                environment_ = environment
-                while environment_ and environment_.parent:
-                    environment_ = environment_.parent
-                if environment_:
-                    environment_.withParent(savedParent)
+            if reparented:
+                reparented.withParent(savedParent)
